@@ -205,8 +205,14 @@ pub fn check_c18(call: Call, prev: &PrevRes, res: &TxRes, parsed: Option<&Parsed
     if matches!(res, TxRes::Panic(..)) {
         return None;
     }
+    // "(when no re-use substitution applies)": with re-use on and the same label remembered a substitution may apply.
+    // Whether it did is visible on the emitted packet (its label type is re-use although a label was passed); for a
+    // refused call it is not, so those are left alone
     if call != Call::EncapFrag && substitution_possible {
-        return None;
+        match (res, parsed) {
+            (TxRes::Complete(_), Some(p)) | (TxRes::Frag(..), Some(p)) if p.lt != crate::wire::LT_REUSE => {}
+            _ => return None,
+        }
     }
     let pt = if ptype < 0x100 { "ptype<0x100" } else if ptype < 0x600 { "ptype<0x600" } else { "ptype>=0x600" };
     let regime = size_regime(buf_len, pdu_len);
@@ -221,6 +227,9 @@ pub fn check_c18(call: Call, prev: &PrevRes, res: &TxRes, parsed: Option<&Parsed
         (PrevRes::Ok { .. }, TxRes::Err(b)) => Some(Violation::new("C18", "C18.preview_ok_actual_err", format!("{}:{:?}:{}:{}", call.name(), b, pt, regime), format!("preview ok, actual {:?}", b))),
         (PrevRes::Ok { kind, pdu_len: ppl, pkt_len }, _) => {
             let n = res.n().unwrap();
+            if parsed.is_none() && *pkt_len != n {
+                return Some(Violation::new("C18", "C18.pkt_len", format!("{}:unparsed:{}", call.name(), regime), format!("preview pkt_len {}, actual {}", pkt_len, n)));
+            }
             let p = parsed?;
             if *kind != p.kind {
                 return Some(Violation::new("C18", "C18.kind", format!("{}:{}!={}:{}", call.name(), kind.name(), p.kind.name(), regime), format!("preview kind {}, actual {}", kind.name(), p.kind.name())));
@@ -234,6 +243,31 @@ pub fn check_c18(call: Call, prev: &PrevRes, res: &TxRes, parsed: Option<&Parsed
             None
         }
         _ => None,
+    }
+}
+
+/// which cell of the preview / real-call comparison a pair falls in (reach counters of C18)
+pub fn c18_cell(call: Call, prev: &PrevRes, res: &TxRes, parsed: Option<&Parsed>, substitution_possible: bool) -> &'static str {
+    let frag = call == Call::EncapFrag;
+    if !frag && substitution_possible {
+        match (res, parsed) {
+            (TxRes::Complete(_), Some(p)) | (TxRes::Frag(..), Some(p)) if p.lt != crate::wire::LT_REUSE => return "probe.c18.encap.compared_although_substitution_was_possible",
+            _ => return "c18.encap.not_compared_substitution_possible",
+        }
+    }
+    match (prev, res) {
+        (PrevRes::Ok { .. }, TxRes::Complete(_)) => if frag { "probe.c18.encap_frag.ok_end" } else { "probe.c18.encap.ok_complete" },
+        (PrevRes::Ok { .. }, TxRes::Frag(..)) => if frag { "probe.c18.encap_frag.ok_intermediate" } else { "probe.c18.encap.ok_first" },
+        (PrevRes::Err(_), TxRes::Err(e)) => match (frag, e) {
+            (false, EncapError::ErrorSizeBuffer) => "probe.c18.encap.err_size_buffer",
+            (false, EncapError::ErrorPduLength) => "probe.c18.encap.err_pdu_length",
+            (false, EncapError::ErrorProtocolType) => "probe.c18.encap.err_protocol_type",
+            (false, EncapError::ErrorInvalidLabel) => "probe.c18.encap.err_invalid_label",
+            (true, EncapError::ErrorSizeBuffer) => "probe.c18.encap_frag.err_size_buffer",
+            (true, EncapError::ErrorPduLength) => "probe.c18.encap_frag.err_pdu_length",
+            _ => "c18.err_other",
+        },
+        _ => "c18.mismatch_or_panic",
     }
 }
 
